@@ -4,6 +4,7 @@ package main
 // crash.
 
 import (
+	"os"
 	"fmt"
 	"go/token"
 	"go/types"
@@ -981,6 +982,19 @@ func checkC20Restore(p *Prog, r *Report, ru *Rule) {
 		return
 	}
 	r.Saw("func " + fnName(onew))
+	/* The cleanup as a method of a type of its own (a restorer struct with
+	a sync.Once inside): calls of the method are calls of the cleanup, and
+	what it does is looked for in the method. */
+	var cleanMethod *ssa.Function
+	if cf, _ := closureOf(cleanupLocal); nil != cf {
+		if m := unbound(p, cf); m != cf && nil != m.Blocks {
+			cleanMethod = m
+		}
+	}
+	cleanScope := withAnons(onew)
+	if nil != cleanMethod {
+		cleanScope = append(cleanScope, withAnons(cleanMethod)...)
+	}
 	/* Returned cleanup is that function. */
 	eachInstr(onew, func(i ssa.Instruction) {
 		ret, ok := i.(*ssa.Return)
@@ -996,6 +1010,9 @@ func checkC20Restore(p *Prog, r *Report, ru *Rule) {
 	/* Error returns after the cleanup exists call it. */
 	miss := reachQ{From: locOf(cleanupLocal.(ssa.Instruction)), Block: func(i ssa.Instruction) bool {
 		c := callCommon(i)
+		if nil != c && nil != cleanMethod && c.StaticCallee() == cleanMethod {
+			return true
+		}
 		return nil != c && stripConv(resolveCell(c.Value), false) == cleanupLocal
 	}, Target: func(i ssa.Instruction) bool {
 		ret, ok := i.(*ssa.Return)
@@ -1011,14 +1028,32 @@ func checkC20Restore(p *Prog, r *Report, ru *Rule) {
 	/* Restore gets MakeRaw's state for the same descriptor. */
 	stateCell := cellOf(valueOrExtract(makeRaw, 0))
 	okRestore := false
-	for _, f := range withAnons(onew) {
+	for _, f := range cleanScope {
 		eachInstr(f, func(i ssa.Instruction) {
 			c := callCommon(i)
 			if nil == c || "github.com/magisterquis/goxterm.Restore" != calleeName(c) {
 				return
 			}
 			st, ok := c.Args[1].(*ssa.UnOp)
-			if (ok && nil != stateCell && resolveFree(st.X) == ssa.Value(stateCell)) || resolveCell(c.Args[1]) == valueOrExtract(makeRaw, 0) {
+			/* The state kept in a field of the restorer: every store to
+			that field is MakeRaw's state. */
+			viaField := false
+			if fv, _ := loadedField(c.Args[1]); nil != fv {
+				sts := p.storesToField(fv)
+				viaField = 0 != len(sts)
+				for _, fs := range sts {
+					if isNilConst(fs.Val) {
+						continue
+					}
+					if resolveCell(fs.Val) != valueOrExtract(makeRaw, 0) && fs.Val != valueOrExtract(makeRaw, 0) {
+						viaField = false
+					}
+				}
+			}
+			if "" != os.Getenv("CRS_C20DEBUG") {
+				fmt.Fprintf(os.Stderr, "C20DEBUG restore in %s viaField=%v fd=%v\n", fnName(f), viaField, sameFdSource(c.Args[0], makeRaw.Common().Args[0]))
+			}
+			if viaField || (ok && nil != stateCell && resolveFree(st.X) == ssa.Value(stateCell)) || resolveCell(c.Args[1]) == valueOrExtract(makeRaw, 0) {
 				/* Same fd expression: s.ttyF.Fd() in both. */
 				if sameFdSource(c.Args[0], makeRaw.Common().Args[0]) {
 					okRestore = true
@@ -1035,6 +1070,9 @@ func checkC20Restore(p *Prog, r *Report, ru *Rule) {
 			cleanFn, _ = closureOf(oc.Common().Args[0])
 		} else {
 			cleanFn, _ = closureOf(cleanupLocal)
+		}
+		if nil != cleanMethod {
+			cleanFn = cleanMethod
 		}
 		modeCall := func(i ssa.Instruction) (string, bool, bool) {
 			c := callCommon(i)
@@ -1075,7 +1113,7 @@ func checkC20Restore(p *Prog, r *Report, ru *Rule) {
 	cleanup reads the saved state from is written by New alone. */
 	var savedField *types.Var
 	var savedCell ssa.Value
-	for _, f := range withAnons(onew) {
+	for _, f := range cleanScope {
 		eachInstr(f, func(i ssa.Instruction) {
 			c := callCommon(i)
 			if nil == c || "github.com/magisterquis/goxterm.Restore" != calleeName(c) || 2 != len(c.Args) {
@@ -1144,7 +1182,32 @@ func sameFdSource(a, b ssa.Value) bool {
 		return nil
 	}
 	fa, fb := f(a), f(b)
-	return nil != fa && fa == fb
+	if nil != fa && fa == fb {
+		return true
+	}
+	/* Two fields, one of which only ever holds the other (the restorer's
+	copy of the shell's TTY). */
+	va, okA := fa.(*types.Var)
+	vb, okB := fb.(*types.Var)
+	if !okA || !okB || nil == theProg {
+		return false
+	}
+	holds := func(x, y *types.Var) bool {
+		sts := theProg.storesToField(x)
+		if 0 == len(sts) {
+			return false
+		}
+		for _, st := range sts {
+			if fv, _ := loadedField(stripConv(st.Val, false)); fv == y {
+				continue
+			}
+			if fv, _ := loadedField(stripConv(resolveCell(st.Val), false)); fv != y {
+				return false
+			}
+		}
+		return true
+	}
+	return holds(va, vb) || holds(vb, va)
 }
 
 // queuesOnly: the message function sends on a channel and never writes
